@@ -4,6 +4,7 @@ import json, os, shutil, sys
 V = os.path.dirname(os.path.dirname(os.path.abspath(__file__)))
 src = sys.argv[1]
 needs = json.load(open(sys.argv[2]))
+infix = sys.argv[3] if len(sys.argv) > 3 else ""
 for prop in sorted(os.listdir(src)):
     for k in sorted(os.listdir(os.path.join(src, prop))):
         d = os.path.join(src, prop, k)
@@ -14,7 +15,7 @@ for prop in sorted(os.listdir(src)):
         if not valid:
             print("skip (not validated):", prop, k)
             continue
-        sid = "%s-%s" % (prop, k)
+        sid = "%s-%s%s" % (prop, infix, k)
         out = os.path.join(V, "seeded", sid)
         os.makedirs(out, exist_ok=True)
         for f in ["patch.diff", "demo_test.go", "notes.md"]:
